@@ -163,12 +163,12 @@ Direct == /\ geo.stage = "loop" /\ geo.n <= ChunkLimit
           /\ geo' = [geo EXCEPT !.stage = "done", !.out = [i \in 1..geo.n |-> Res(i - 1)]]
 \* chunked branch: RDM[chunk, :] = calc_rdm(datasets of the chunk) for one chunk after the other
 OneChunk == /\ geo.stage = "loop" /\ geo.n > ChunkLimit /\ geo.k < NChunk
-            /\ LET ch == Chunks(geo.n)[geo.k + 1]
-                   part == [j \in 1..Len(ch) |-> Res(ch[j])]     \* results in the order of the chunk
-               IN geo' = [geo EXCEPT !.k = geo.k + 1,
-                            !.out = [i \in 1..geo.n |-> IF \E j \in 1..Len(ch) : ch[j] = i - 1
-                                                        THEN part[CHOOSE j \in 1..Len(ch) : ch[j] = i - 1]
-                                                        ELSE geo.out[i]]]
+            /\ geo' = [geo EXCEPT !.k = geo.k + 1,
+                         !.out = [i \in 1..geo.n |->
+                                    \* position i-1 belongs to chunk k+1 iff lo <= i-1 < hi; it then receives the
+                                    \* (i-1-lo+1)-th row of the chunk's result, which is the RDM of centre lo+(i-lo)-1
+                                    LET lo == Bound(geo.n, geo.k)  hi == Bound(geo.n, geo.k + 1) IN
+                                    IF lo <= i - 1 /\ i - 1 < hi THEN Res(lo + (i - lo) - 1) ELSE geo.out[i]]]
 Finish == /\ geo.stage = "loop" /\ geo.n > ChunkLimit /\ geo.k = NChunk
           /\ geo' = [geo EXCEPT !.stage = "done"]
 ChunkNext == (Direct \/ OneChunk \/ Finish) /\ UNCHANGED sch
@@ -177,26 +177,29 @@ ChunkedIsDirect ==            \* every centre gets exactly its own RDM, chunked 
 ChunkProgress ==              \* after k chunks exactly the first Bound(n,k) centres are written
   (geo.kind = "chunk" /\ geo.stage = "loop" /\ geo.n > ChunkLimit) =>
      \A i \in 1..geo.n : geo.out[i] = IF i <= Bound(geo.n, geo.k) THEN Res(i - 1) ELSE 0
-ChunkInv == geo.kind = "chunk" => ChunkPartition(geo.n)
+ChunkInv == (geo.kind = "chunk" /\ geo.stage = "done") => ChunkPartition(geo.n)
 
 (* --------------------------- Big: large masks ---------------------------- *)
 Hole(k, mod) == mod > 0 /\ ((k * 7 + (k \div 10) * 3 + (k \div 100) * 5) % mod = 0)
-BigMask(s, mod) == {k \in LinSet(s) : ~Hole(k, mod)}
+\* mod > 0: pseudo-random holes; mod = 0: full volume; mod < 0: only the first -mod voxels (exact centre counts)
+BigMask(s, mod) == IF mod < 0 THEN {k \in LinSet(s) : k < -mod} ELSE {k \in LinSet(s) : ~Hole(k, mod)}
 BigInit == /\ sch = Off
-           /\ \E b \in BigCases : geo = [kind |-> "big", shape |-> b[1], mod |-> b[2], rad |-> b[3], thr |-> b[4],
-                                         stage |-> "input", centres |-> <<>>, neigh |-> <<>>]
-BigSolve == /\ geo.stage = "input"
-            /\ LET m == BigMask(geo.shape, geo.mod)
-                   cs == GoodCentres(geo.shape, m, geo.rad, geo.thr)
-               IN geo' = [geo EXCEPT !.stage = "done", !.centres = cs,
-                            !.neigh = [i \in 1..Len(cs) |->
-                                         SortedSeq(LinOf(geo.shape, NeighboursCode(Unravel(geo.shape, cs[i]), geo.rad, geo.shape)))]]
-BigNext == BigSolve /\ UNCHANGED sch
+           /\ \E b \in BigCases : geo = [kind |-> "big", shape |-> b[1], mask |-> BigMask(b[1], b[2]), rad |-> b[3],
+                                         thr |-> b[4], stage |-> "input", centres |-> <<>>, neigh |-> <<>>]
+BigCentres == /\ geo.stage = "input"
+              /\ geo' = [geo EXCEPT !.stage = "centres",
+                           !.centres = GoodCentres(geo.shape, geo.mask, geo.rad, geo.thr)]
+BigNeigh == /\ geo.stage = "centres"
+            /\ geo' = [geo EXCEPT !.stage = "done",
+                         !.neigh = [i \in 1..Len(geo.centres) |->
+                                      SortedSeq(LinOf(geo.shape, NeighboursCode(Unravel(geo.shape, geo.centres[i]),
+                                                                               geo.rad, geo.shape)))]]
+BigNext == (BigCentres \/ BigNeigh) /\ UNCHANGED sch
 BigOk == (geo.kind = "big" /\ Done) =>
             /\ \A i \in 1..Len(geo.centres) : geo.centres[i] \in ToSet(geo.neigh[i])
             /\ (Len(geo.centres) > ChunkLimit => ChunkPartition(Len(geo.centres)))
 EmitBig == (geo.kind = "big" /\ Done) =>
-   PrintT(ToJson([kind |-> "big", shape |-> geo.shape, mask |-> SortedSeq(BigMask(geo.shape, geo.mod)),
+   PrintT(ToJson([kind |-> "big", shape |-> geo.shape, mask |-> SortedSeq(geo.mask),
                   rad |-> geo.rad, thr |-> geo.thr, centres |-> geo.centres, neigh |-> geo.neigh,
                   chunked |-> Len(geo.centres) > ChunkLimit,
                   chunksizes |-> IF Len(geo.centres) > ChunkLimit
